@@ -118,6 +118,16 @@ CLAIMED = {
              "visible. Randomised, TLC decides each trace.",
         note="TLC trace validation; RefEval residuals; weakest reading of the position tolerance; tolerances >= 1e-5 "
              "(the exp/log cut-off hides errors below 1e-6)"),
+    "C13": dict(
+        level="model_checking", design="3/C13",
+        technique="TLA+ spec Urdf.tla over QSE3.tla: TLC builds abstract single-chain URDFs joint by joint (every structure "
+                  "to a size, larger ones by simulation), checks structural lemmas and computes the exact tool pose on a "
+                  "quarter-turn palette; every exported file is written as XML, loaded by the real loader and compared "
+                  "(dof, order, names, limits, FK) - also with random float values and for the five bundled files "
+                  "through an independent XML walker; thresholds and coverage decided by TLC (LawTrace.tla)",
+        text="Exhaustive over abstract file structures (joint types, omitted optional parts, fixed joints in any position, "
+             "world link) to a size and random to 12 joints; exact oracle from TLC on the palette, RefEval off it.",
+        note="TLC exact arithmetic (QSE3); RefEval chain for float variants; ElementTree walker for bundled files"),
 }
 
 NOT_YET = "check not built yet in this round (planned: see DESIGN.md section 3)"
